@@ -37,6 +37,17 @@ SAFE_PREFIX = ("defusedxml.ElementTree", "defusedxml.cElementTree", "defusedxml.
                "defusedxml.pulldom", "defusedxml.expatreader", "defusedxml.expatbuilder")
 SINKS = {"fromstring", "fromstringlist", "parse", "XML", "XMLID", "iterparse", "parseString", "XMLParser",
          "XMLPullParser", "make_parser", "TreeBuilder", "ParserCreate", "expatreader"}
+# parameter order of the hardened entry points (defusedxml 0.7): (module, function) -> names
+_FORBID = ["forbid_dtd", "forbid_entities", "forbid_external"]
+_DEFUSED_SIGNATURES = {
+    ("*", "fromstring"): ["text"] + _FORBID, ("*", "XML"): ["text"] + _FORBID,
+    ("ElementTree", "parse"): ["source", "parser"] + _FORBID, ("cElementTree", "parse"): ["source", "parser"] + _FORBID,
+    ("*", "iterparse"): ["source", "events", "parser"] + _FORBID,
+    ("minidom", "parse"): ["file", "parser", "bufsize"] + _FORBID, ("minidom", "parseString"): ["string", "parser"] + _FORBID,
+    ("pulldom", "parse"): ["stream_or_string", "parser", "bufsize"] + _FORBID, ("pulldom", "parseString"): ["string", "parser"] + _FORBID,
+    ("sax", "parse"): ["source", "handler", "errorHandler"] + _FORBID, ("sax", "parseString"): ["string", "handler", "errorHandler"] + _FORBID,
+    ("expatbuilder", "parse"): ["file", "namespaces"] + _FORBID, ("expatbuilder", "parseString"): ["string", "namespaces"] + _FORBID,
+}
 DYNAMIC = {"__import__", "importlib.import_module", "importlib.__import__", "exec", "eval", "compile",
            "imp.load_source", "runpy.run_path", "runpy.run_module"}
 
@@ -101,12 +112,46 @@ def scan_sinks(world: World):
         if kind == "external":
             if name.startswith(SAFE_PREFIX):
                 bad = []
+                # positional arguments (also those unpacked from a constant tuple) land in the callee's parameters by position:
+                # the defusedxml entry points do not agree on where `parser` and the forbid_* switches sit
+                params = _DEFUSED_SIGNATURES.get((name.rsplit(".", 1)[0].split(".")[-1], last)) or _DEFUSED_SIGNATURES.get(("*", last))
+                bound = {}
+                pos = []
+                opaque_star = False
+                for a in call.args:
+                    if isinstance(a, ast.Starred):
+                        try:
+                            seq = world.prog.fold(a.value, mi)
+                            pos.extend(("const", v) for v in seq)
+                        except Exception:
+                            opaque_star = True
+                    else:
+                        try:
+                            pos.append(("const", world.prog.fold(a, mi)))
+                        except Exception:
+                            pos.append(("expr", a))
+                if opaque_star:
+                    bad.append("*args forwarded")
+                elif len(pos) > 1:
+                    if params is None:
+                        bad.append(f"{len(pos)} positional arguments to an entry point whose parameter order is not known to the checker")
+                    else:
+                        for pname, pv in zip(params, pos):
+                            bound[pname] = pv
+                        if len(pos) > len(params):
+                            bad.append("more positional arguments than parameters")
                 for kw in ("forbid_entities", "forbid_external"):
                     v = const_kw(call, kw)
-                    if v is not None and not (isinstance(v, ast.Constant) and v.value is True):
-                        bad.append(f"{kw}={ast.unparse(v)}")
-                if const_kw(call, "parser") is not None:
-                    bad.append("custom parser=")
+                    if v is not None:
+                        try:
+                            bound[kw] = ("const", world.prog.fold(v, mi))
+                        except Exception:
+                            bound[kw] = ("expr", v)
+                    if kw in bound and not (bound[kw][0] == "const" and bound[kw][1] is True):
+                        bad.append(f"{kw}={bound[kw][1] if bound[kw][0] == 'const' else ast.unparse(bound[kw][1])}")
+                if const_kw(call, "parser") is not None or ("parser" in bound and not (bound["parser"][0] == "const" and bound["parser"][1] is None)):
+                    pv = bound.get("parser")
+                    bad.append("custom parser=" + (repr(pv[1]) if pv and pv[0] == "const" else ""))
                 if any(k.arg is None for k in call.keywords):
                     bad.append("**kwargs forwarded")
                 if bad:
